@@ -41,25 +41,12 @@ type RawValues = Vec<RecordValue>;
 //@enditem
 
 // ---- contract-only leaves (proved on the real functions by the Kani unit wr_k) --------------------
-/// the real value of a record (scaled integers after scale and offset): to_f64's result
-uninterp spec fn real_f64(v: RecordValue, dt: RecordDataType) -> f64;
-spec fn int_of(v: RecordValue) -> i64 { match v { RecordValue::Integer(i) => i, _ => 0 } }
 uninterp spec fn val_gt<T>(a: T, b: T) -> bool;
 uninterp spec fn val_lt<T>(a: T, b: T) -> bool;
 /// running minimum / maximum step (C14)
 spec fn upd_min<T>(m: Option<T>, v: T) -> Option<T> { match m { None => Some(v), Some(c) => if val_gt(c, v) { Some(v) } else { Some(c) } } }
 spec fn upd_max<T>(m: Option<T>, v: T) -> Option<T> { match m { None => Some(v), Some(c) => if val_lt(c, v) { Some(v) } else { Some(c) } } }
 
-impl RecordValue {
-    #[verifier::external_body]
-    fn to_f64(&self, dt: &RecordDataType) -> (r: Result<f64>)
-        ensures (r is Err) == (self is ScaledInteger && !(dt is ScaledInteger)), r is Ok ==> r->Ok_0 == real_f64(*self, *dt), r is Err ==> r->Err_0 is Internal
-    { unimplemented!() }
-    #[verifier::external_body]
-    fn to_i64(&self, dt: &RecordDataType) -> (r: Result<i64>)
-        ensures (r is Ok) == (self is Integer && dt is Integer), r is Ok ==> r->Ok_0 == int_of(*self), r is Err ==> r->Err_0 is Internal
-    { unimplemented!() }
-}
 #[verifier::external_body]
 fn update_min<T>(value: T, min: &mut Option<T>)
     ensures *final(min) == upd_min(*old(min), value)
